@@ -230,7 +230,7 @@ func init() {
 	fw.Register(&fw.Check{
 		ID:    "C09",
 		Level: "model_checking",
-		Rule: "for every accepted program of the core corpus K and the scaled families S (string / identifier / block-name lengths around 94, 240/241, 2287/2288, 4096, 67823/67824; constant pools of 240..242; offsets in every varint class; boundary floats) and for program names of length 0..4097: " +
+		Rule: "for every accepted program of the core corpus K and the scaled families S (string / identifier / block-name lengths around 94, 240/241, 2287/2288, 4096, 67823/67824; constant pools of 240..242; offsets in every varint class; boundary floats) and for program names of length 0..67824 and names holding %, NUL, newline, non-ASCII and invalid UTF-8 bytes: " +
 			"Dump, then LoadProg under every read delivery of a bounded family (whole, 1 byte/read, data+EOF, halves, every fixed size 2..17 and 4095..4097, every partition with <=k cut points: k=1 for dumps <=6000 B, k=2 for <=150 B (thorough <=400 B), k=3 for <=48 B); " +
 			"oracle: nil errors, identical disassembly, identical execution (output, blocks, binding, warnings, error text incl. position), byte-identical re-dump, and the independent decoder recovers the name and a line table equal to the newline offsets of the source. A case is (program, name); counters.loads counts LoadProg calls.",
 		Subs:           []*fw.Sub{subC09},
@@ -289,6 +289,9 @@ func init() {
 				if c.Expired() {
 					return
 				}
+			}
+			for i, pn := range []string{"%", "100%.bcl", "%s%d%v", "conf/my%20service.bcl", "a\x00b", "é€", "line1\nline2", "\xff\xfe", "== x ==", " ", "%!(NOVERB)"} {
+				c.Do(subC09, &c09Case{Name: fmt.Sprintf("pname-special-%d", i), Src: `var a=1; def b "nm" { x = a+2.5; print "s"+x } bind b->struct`, PName: pn, Cuts: 1})
 			}
 			for _, L := range []int{0, 1, 93, 94, 95, 239, 240, 241, 242, 2287, 2288, 4092, 4093, 4094, 4095, 4096, 4097, 8192, 67823, 67824} {
 				c.Do(subC09, &c09Case{Name: fmt.Sprintf("pname-%d", L), Src: `var a=1; def b "nm" { x = a+2.5; print "s"+x } bind b->struct`, PName: strings.Repeat("n", L), Cuts: 1})
